@@ -3,8 +3,8 @@
 \*   kind   "poisson" (N draws accumulated) | "binary" (rejection loop until target active bins)
 \*   n      number of bins;  zero[k] = 1 iff bin k has zero rate
 \*   draws  sequence of [k, near, lo, hi, u]: the exact (rational-arithmetic) bin of the uniform number,
-\*          whether it lies within rounding of a cumulative boundary and the positive-rate bins on
-\*          either side of that boundary; u = abstract position when the rates are integer weights
+\*          whether it lies within rounding of a cumulative boundary and the lowest / highest positive-rate
+\*          bin the rounding could select (every positive-rate bin in lo..hi is admissible); u = abstract position when the rates are integer weights
 \*          (wt given), else -1
 \*   result the count array the code returned, target the prescribed number
 \* TLC replays the draws one by one, choosing a bin in the admissible set, and accepts the trace when
@@ -15,7 +15,7 @@ VARIABLES tid, l
 Traces == JsonDeserialize(IOEnv.TRACE_FILE)
 T == Traces[tid]
 
-AllowedT(d) == IF d.near = 1 THEN {d.lo, d.hi} ELSE {d.k}
+AllowedT(d) == IF d.near = 1 THEN {b \in d.lo..d.hi : T.zero[b] = 0} ELSE {d.k}
 
 \* two further record kinds ride on the same batch:
 \*   kind "quantile": sims = ranks of the simulated statistics, obs = rank of the observed one,
